@@ -58,7 +58,7 @@ RULE = ("case family = index % 4.  pregroup: vocabulary of 2-6 words with "
         "single atom. ccg: 6 random category strings, three random trees of depth "
         "<= 4 with fa/ba/fc/unary/other rules and features; non-trivial = tree "
         "with >= 3 rule nodes.  Distinct by the repr of the generated inputs.")
-SIZES = {"quick": (16, 190), "thorough": (16, 5000)}
+SIZES = {"quick": (16, 190), "thorough": (16, 3600)}
 TIMEOUT = {"quick": 600, "thorough": 5400}
 COVER = {
     "discopy.grammar.pregroup:eager_parse": 0.95,
